@@ -186,6 +186,77 @@ print("RESULT" + json.dumps(res))
 '''
 
 
+CLOSURE_CODE = r'''
+import json, sys, warnings, math
+warnings.filterwarnings("ignore")
+sys.path.insert(0, "/verif")
+from harness import rsl as rslmod
+import numba
+cells, ZS = json.loads(sys.argv[1]), json.loads(sys.argv[2])
+out = {}
+for cell in cells:
+    try:
+        items, _r, _e = rslmod.collect(cell)
+    except Exception as ex:
+        continue
+    for key, order, nf, r, _k in items:
+        for part in ("reg", "sing", "loc"):
+            f = getattr(r, part)
+            if f is None or isinstance(f, numba.core.dispatcher.Dispatcher):
+                continue
+            vals = []
+            for z in ZS:
+                try:
+                    v = float(f(z, r.args[part]))
+                    vals.append(v if math.isfinite(v) else repr(v))
+                except Exception as ex:
+                    vals.append("raised:" + type(ex).__name__)
+            out["|".join([key[0], key[1], key[2], str(order), part, str(nf), cell["fns"]])] = vals
+print("RESULT" + json.dumps(out))
+'''
+CZS = (1e-4, 0.03, 0.2, 0.5, 0.77, 0.949, 1 - 1e-4)
+
+
+def closures_job(cells):
+    """Parts of registry elements that are Python functions calling compiled kernels: values with compilation on vs off."""
+    outs = {}
+    for mode in ("jit", "nojit"):
+        env = dict(os.environ)
+        if mode == "nojit":
+            env["NUMBA_DISABLE_JIT"] = "1"
+        p = subprocess.run([sys.executable, "-c", CLOSURE_CODE, json.dumps(cells), json.dumps(CZS)], env=env, capture_output=True, text=True, timeout=3000)
+        line = [l for l in p.stdout.splitlines() if l.startswith("RESULT")]
+        if p.returncode != 0 or not line:
+            raise common.MachineryError(f"closure driver failed ({mode}): " + (p.stderr.strip().splitlines() or ["?"])[-1][:200])
+        outs[mode] = json.loads(line[0][6:])
+    lines = []
+    for k, jv in outs["jit"].items():
+        nv = outs["nojit"].get(k)
+        kind, pc, cls, order, part, nf, fns = k.split("|")
+        ln = dict(what="closure", kind=kind, pc=pc, cls=cls, order=int(order), part=part, nf=int(nf), fns=fns, outcome="OK", dev_milli=0, note="")
+        if nv is None:
+            ln["outcome"] = "part_absent_without_compilation"
+        else:
+            worst = 0.0
+            scale = max([abs(v) for v in jv + nv if not isinstance(v, str)] or [0.0])
+            for z, a, b in zip(CZS, jv, nv):
+                if isinstance(a, str) or isinstance(b, str):
+                    if a != b:
+                        ln["outcome"] = f"at_z_{z}_compiled_{a}_interpreted_{b}".replace(":", "_").replace(".", "p")
+                        ln["note"] = f"z={z}: compiled {a}, interpreted {b}"
+                        break
+                    continue
+                # in units of the tolerance: relative 1e-9 (with the conditioning of (1 - z) in double precision, as for the kernels),
+                # plus 1e-11 of the largest value of the part on the lattice and 1e-13 absolute (sums of O(1) terms cancelling to ~0)
+                tol = 1e-9 * max(abs(a), abs(b)) * (1.0 + 1e-11 / max(1.0 - z, 1e-16)) + 1e-11 * scale + 1e-13
+                d = abs(a - b) / tol
+                if d > worst:
+                    worst, ln["note"] = d, f"z={z}: compiled {a!r}, interpreted {b!r}"
+            ln["dev_milli"] = common.milli(worst, 1.0)
+        lines.append(ln)
+    return lines
+
+
 def run_job(job):
     outs = {}
     for mode in ("jit", "nojit"):
@@ -225,6 +296,8 @@ def run(ctx):
                  dict(name="FL_FFNS_TMC", th=dict(PTO=1, PTODIS=1, FNS="FFNS", NfFF=3, TMC=1, mc=2.0, mb=5.0, mt=12.0), ob=dict(prDIS="NC"),
                       obs={"FL_total": [dict(x=0.2, Q2=30.0)]})]
     res += [[r] for r in ctx.pmap(run_job, jobs)]
+    nchunk = 8
+    res += ctx.pmap(closures_job, [cells[i::nchunk] for i in range(nchunk)])
     lines = []
     for rows in res:
         for ln in rows:
@@ -256,12 +329,15 @@ def run(ctx):
         ("raised", lambda l: dict(l, interp_raised=True) if l["what"] in ("site", "kernel") else None),
         ("element", lambda l: dict(l, order=8) if l["what"] == "site" else None),
         ("arity", lambda l: dict(l, maxidx=l["nargs"]) if l["what"] == "site" else None),
-        ("outcome", lambda l: dict(l, outcome="Crash_TypingError") if l["what"] == "run" else None)])
+        ("outcome", lambda l: dict(l, outcome="Crash_TypingError") if l["what"] in ("run", "closure") else None)])
     for oid, clause in bad.items():
         ln = uniq[oid]
         if ln["what"] == "site":
             key = f"site:{ln['kind']}_{ln['pc']}:{ln['cls']}:order{ln['order']}:{ln['part']}:{clause}"
             what = f"{ln['cls']} ({ln['kind']}_{ln['pc']}) order {ln['order']} {ln['part']} -> {ln['kernel']} (reads up to index {ln['maxidx']}, gets {ln['nargs']} values): {clause} {ln['note']}"
+        elif ln["what"] == "closure":
+            key = f"closure:{ln['kind']}_{ln['pc']}:{ln['cls']}:order{ln['order']}:{ln['part']}:{clause[:60]}"
+            what = f"{ln['cls']} ({ln['kind']}_{ln['pc']}) order {ln['order']} {ln['part']} (python part calling compiled kernels): {clause} {ln['note']}"
         elif ln["what"] == "kernel":
             key, what = f"kernel:{ln['name']}:{clause}", f"{ln['name']} [{ln['sig']}]: {clause} {ln['note']}"
         else:
